@@ -96,7 +96,7 @@ func runConc(k *ConcCase) (line, out string, err error) {
 		if kind == 'p' {
 			now = lifetime + 1
 		}
-		sh := &shiftDB{DB: w.raw, off: w.sh.off + timeSeconds(now-2)}
+		sh := &shiftDB{DB: w.raw, off: w.sh.off + timeSeconds(now-2), createFail: -1}
 		db, derr := acmenosql.New(&gateDB{shiftDB: sh, th: th})
 		if derr != nil {
 			return "", "", derr
